@@ -29,6 +29,9 @@ class RefMatcher:
         self.attr_at = []  # (ref name, attr name, node)
         self.nmatched = 0
 
+    def spawn(self, emit=None):
+        return RefMatcher(self.cd, self.u, self.side, emit or self.emit)
+
     # ------------------------------------------------------------------ helpers
     def ok(self, t, text):
         self.nmatched += 1
@@ -220,7 +223,7 @@ class RefMatcher:
                 return self.ok(t, f"{cnt} x {uname}")
             return self.bad(t, f"layout repeats {uname}; the code repeats {k}")
         # inline fields (Tdf.new writes the entries inline)
-        sub = RefMatcher(self.cd, self.u, self.side, self.emit)
+        sub = self.spawn()
         sub.count_val = dict(self.count_val)
         sub.un.wvars = dict(self.un.wvars)
         for v in t.vars:
@@ -359,7 +362,7 @@ class RefMatcher:
                     self.bad(t, f"formats {members} do not select one branch of `{norm(t.cond)}`")
                     continue
                 branch = t.then if sel.pop() else t.orelse
-                sub = RefMatcher(self.cd, self.u, self.side, self.emit)
+                sub = self.spawn()
                 sub.count_val = self.count_val
                 sub.un.wvars = self.un.wvars
                 sub._seg = getattr(self, "_seg", None)
@@ -374,7 +377,7 @@ class RefMatcher:
             return i
         if all(len(rt) == 1 for m, rt in nonempty):
             for members, rt in nonempty:
-                sub = RefMatcher(self.cd, self.u, self.side, lambda ok, node, text: self.emit(ok, node, f"[{'/'.join(members)}] {text}"))
+                sub = self.spawn(lambda ok, node, text, members=members: self.emit(ok, node, f"[{'/'.join(members)}] {text}"))
                 sub.count_val = self.count_val
                 sub.un.wvars = self.un.wvars
                 sub.match(rt, [t])
